@@ -228,8 +228,6 @@ def abstract_scene(pid, n, m, mode, policy, task, thr, labels, frames, dim):
         thresholds = [real(f"thr_{k}", lo=0, hi=1 if maximize else None) for k in range(len(TARGETS))]
     ests_in, gts_in = list(ests), list(gts)
     res, exc = None, None
-    if symx.is_symbolic():
-        extras = None
     try:
         if symx.is_symbolic():
             res = OR.get_object_results(TASKS[task], ests_in, gts_in, target_labels=TARGETS,
@@ -400,43 +398,7 @@ def obligations(pid, tier):
     return obs
 
 
-def _lazy(cls):
-    """Defer `_calculate_matching_score` until `.value` is observed (evaluation timing only): the result
-    constructor eagerly builds all four matchings, most of which a given check never looks at."""
-
-    class LazyMatching(cls):
-        def __init__(self, estimated_object, ground_truth_object, transforms=None):
-            if ground_truth_object is not None:
-                assert isinstance(estimated_object, type(ground_truth_object))
-            self.__dict__["_args"] = (estimated_object, ground_truth_object, transforms)
-            if cls is OM.PlaneDistanceMatching:
-                nan = float("nan")
-                self.ground_truth_nn_plane = ((nan, nan, nan), (nan, nan, nan))
-                self.estimated_nn_plane = ((nan, nan, nan), (nan, nan, nan))
-
-        @property
-        def value(self):
-            d = self.__dict__
-            if "_value" not in d:
-                e, g, t = d["_args"]
-                d["_value"] = self._calculate_matching_score(estimated_object=e, ground_truth_object=g, transforms=t)
-            return d["_value"]
-
-        @value.setter
-        def value(self, v):
-            self.__dict__["_value"] = v
-
-    LazyMatching.__name__ = "Lazy" + cls.__name__
-    return LazyMatching
-
-
-def _lazy_extras():
-    return [
-        (OR, "CenterDistanceMatching", _lazy(OM.CenterDistanceMatching)),
-        (OR, "PlaneDistanceMatching", _lazy(OM.PlaneDistanceMatching)),
-        (OR, "IOU2dMatching", _lazy(OM.IOU2dMatching)),
-        (OR, "IOU3dMatching", _lazy(OM.IOU3dMatching)),
-    ]
+from ..lazy import lazy_extras as _lazy_extras  # noqa: E402
 
 
 def meta(pid):
